@@ -642,6 +642,10 @@ def openmode_obs():
             Ob('parity.open.readonly', O, 'h_parity_open', inject=[OPEN_NOATIME, ADVISE_FLAGS, CHECK_PARITY], unwind=10, small_path=True, timeout=900, mem=6, cost=6, replay=False,
                functions=['parity_open (cmdline/parity.c)', 'open_noatime (cmdline/unix.c, extracted mechanically)', 'advise_flags (cmdline/support.c, extracted mechanically)'],
                note='0..8 splits (SPLIT_MAX, fully unwound), every advise mode, every outcome / errno of each open, every recorded / real size'),
+            Ob('handle.read', O, 'h_handle_read', inject=[OPEN_NOATIME, ADVISE_FLAGS, CHECK_PARITY], unwind=10, small_path=True, timeout=900, mem=6, cost=6, replay=False,
+               functions=['handle_read (cmdline/handle.c)'], note='block size 8: every file content, valid length 1..8, position, chunking of the reads (0..8 bytes each), failing read, end of file, valid size of the handle; pread / bw_limit / advise_read / file_block_size by stub'),
+            Ob('handle.write', O, 'h_handle_write', inject=[OPEN_NOATIME, ADVISE_FLAGS, CHECK_PARITY], unwind=10, small_path=True, timeout=900, mem=6, cost=3, replay=False,
+               functions=['handle_write (cmdline/handle.c)'], note='block size 8: every valid length, position, short write; pwrite / advise_write / file_block_size by stub'),
             Ob('parity.create.sizes', O, 'h_parity_create', inject=[OPEN_NOATIME, ADVISE_FLAGS, CHECK_PARITY], unwind=10, small_path=True, timeout=900, mem=6, cost=6, replay=False,
                functions=['parity_create (cmdline/parity.c)'], note='0..8 splits, every recorded / real size per split, every outcome of open / fstat / advise; no O_TRUNC / O_APPEND'),
             Ob('check.parity_open.region', O, 'h_check_parity', inject=[OPEN_NOATIME, ADVISE_FLAGS, CHECK_PARITY], unwind=8, small_path=True, timeout=900, mem=6, cost=5, replay=False,
@@ -679,7 +683,7 @@ def c06(tier, seed):
 
 
 def c05(tier, seed):
-    return check_obs(tier) + import_obs() + search_obs() + writeback_obs() + filepost_obs()
+    return check_obs(tier) + import_obs() + search_obs() + writeback_obs() + filepost_obs() + [o for o in openmode_obs() if o.name in ('handle.read', 'handle.write')]
 
 
 def import_obs():
@@ -974,7 +978,7 @@ def c16(tier, seed):
 
 def c04(tier, seed):
     c15 = [o for o in PROPS['C15']['obligations'](tier, seed) if o.name in ('scrub.mark.region', 'scrub.classify.region', 'scrub.block_is_enabled', 'scrub.info_word')]
-    return [o for o in check_obs(tier) if o.name == 'check.blockcmp'] + sync_hash_obs() + c15 + [o for o in syncrd_obs() if o.name == 'scrub.data_reader'] + status_obs()
+    return [o for o in check_obs(tier) if o.name == 'check.blockcmp'] + sync_hash_obs() + c15 + [o for o in syncrd_obs() if o.name == 'scrub.data_reader'] + status_obs() + [o for o in openmode_obs() if o.name == 'handle.read']
 
 
 def c01(tier, seed):
